@@ -288,4 +288,44 @@ example :
          | .error _ => false)
      | _, _ => false) = true := by decide
 
+/-! ### transposing back -/
+
+/-- **transposing twice gives the matrix back**: for `m > 0` rows of equal length `n > 0`,
+`zip(*zip(*rows)) = rows` — the leaf matrix of `tree_transpose(inner, outer, tree_transpose(outer, inner, t))` is
+the leaf matrix of `t` -/
+theorem C10_transpose_involution (rows : List (List PyObj)) (n : Nat) (hne : rows ≠ []) (hn : n ≠ 0)
+    (hrow : ∀ r ∈ rows, r.length = n) :
+    transposeRows (transposeRows rows) = rows := by
+  have h1 := C10_transpose_rows rows n hne hrow
+  have hne' : transposeRows rows ≠ [] := by
+    rw [h1]; intro h
+    have := congrArg List.length h
+    simp at this; exact hn this
+  have hrow' : ∀ c ∈ transposeRows rows, c.length = rows.length := by
+    intro c hc; rw [h1] at hc
+    simp only [List.mem_map] at hc
+    obtain ⟨j, _, rfl⟩ := hc; simp
+  rw [C10_transpose_rows (transposeRows rows) rows.length hne' hrow', h1]
+  apply List.ext_getElem
+  · simp
+  · intro i hi1 hi2
+    have hi : i < rows.length := by simpa using hi1
+    simp only [List.getElem_map, List.getElem_range, List.map_map]
+    have hlen : rows[i].length = n := hrow _ (List.getElem_mem _)
+    apply List.ext_getElem
+    · simp [hlen]
+    · intro j hj1 hj2
+      have hj : j < n := by simpa using hj1
+      simp [hi, hj, hlen]
+
+/-- and on the flat leaf lists: chunk, transpose, flatten, then chunk the other way, transpose, flatten returns the leaves -/
+theorem C10_transpose_leaves_involution (n m : Nat) (xs : List PyObj) (h : xs.length = m * n) (hm : m ≠ 0) (hn : n ≠ 0) :
+    (transposeRows (transposeRows (chunks n m xs))).flatten = xs := by
+  have hne : chunks n m xs ≠ [] := by
+    intro e
+    have := chunks_length n m xs
+    rw [e] at this; simp at this; exact hm this.symm
+  rw [C10_transpose_involution (chunks n m xs) n hne hn (C10_chunks_row_length n m xs h), C10_chunks_flatten n m xs h]
+
+
 end Optree
